@@ -7,7 +7,7 @@
    fixed point, and is the only safe result without blanks/upper case outside strings. *)
 EXTENDS MtMachine, TLC
 CONSTANTS MaxLen, Alphabet
-VARIABLES s, known            \* known = s is an input construct of a pinned finding (dumped with s)
+VARIABLES s, known            \* known = s is an input construct on which the pre-fix design was wrong
 vars == <<s, known>>
 Init == s = <<>> /\ known = FALSE
 Next == Len(s) < MaxLen /\ \E c \in Alphabet : s' = Append(s, c) /\ known' = Known(Append(s, c))
@@ -15,14 +15,13 @@ Spec == Init /\ [][Next]_vars
 NextSim == Len(s) < MaxLen /\ LET c == RandomElement(Alphabet) IN s' = Append(s, c) /\ known' = Known(Append(s, c))
 SpecSim == Init /\ [][NextSim]_vars
 
-(* design models of the helper (MtMachine): the as-is transcription keeps its indices inside the
-   buffer, violates the relation only on the Known constructs, and the proposed repair satisfies
-   the relation everywhere *)
-AsIsIndexSafe == AsIsRun(s).safe
-AsIsOKOutsideKnown == ~MediatypeOK(s, AsIs(s)) => known
-FixedOK == MediatypeOK(s, Fixed(s))
-FixedIdem == Fixed(Fixed(s)) = Fixed(s)
-
+(* design models of the helper (MtMachine): the transcription of the current code satisfies the relation on
+   every string and is a projection; the old (pre-fix) design kept its indices inside the buffer and is wrong
+   only on the Known constructs (wrong-design guard) *)
+AsIsOK == MediatypeOK(s, AsIs(s))
+AsIsIdem == AsIs(AsIs(s)) = AsIs(s)
+OldIndexSafe == OldRun(s).safe
+OldWrongOnlyOnKnown == ~MediatypeOK(s, OldAsIs(s)) => known
 NormalFormSafe == MtSafe(s, MtExpected(s)) /\ MediatypeOK(s, MtExpected(s))
 NormalFormFixed == MtExpected(MtExpected(s)) = MtExpected(s)
 IdentitySafe == MtSafe(s, s)                      \* doing nothing is "only lower-casing and stripping"
